@@ -768,14 +768,125 @@ Proof.
   intros Hn. apply Hatt. apply st_copied_eq. auto.
 Qed.
 
+(* ------------------------------------------------------------------ copies with keyword overrides *)
+(* a copy along a route with overrides IS a copy_row with the call's values as `given`: every theorem about
+   copy_row (for all `given`) applies to it *)
+Lemma copy_route_row : forall rt r g d h o x,
+  copy_route rt r g d h o = Some x -> exists g', copy_row r g' d h o = Some x.
+Proof.
+  intros rt r g d h o x H. unfold copy_route in H.
+  destruct (get h o) as [| | | | | |cls sc al bl co ch we at_]; try discriminate.
+  eexists. exact H.
+Qed.
+
+Theorem copy_route_sound : forall nd rt r g d h o h' o',
+  heap_wf h -> row_ok nd r = true -> copy_route rt r g d h o = Some (h', o') ->
+  separated h' o' o
+  /\ (forall l, In l (reach h' o') -> ~ In l (reach h' o))
+  /\ exists ob ob', obs h o = Some ob /\ obs h' o = Some ob /\ obs h' o' = Some ob'
+                    /\ o_cls ob' = d /\ faithful_on nd ob ob'.
+Proof.
+  intros nd rt r g d h o h' o' Hwf Hok Hc.
+  destruct (copy_route_row _ _ _ _ _ _ _ Hc) as [g' Hc'].
+  eapply copy_row_sound; eauto.
+Qed.
+
+(* name / charge / mult of the result of any copy_row *)
+Lemma copy_scal : forall r g d h o h' o',
+  copy_row r g d h o = Some (h', o') ->
+  exists ob ob', obs h o = Some ob /\ obs h' o' = Some ob'
+                 /\ o_scal ob' = if r_scal r then o_scal ob else g_scal g.
+Proof.
+  intros r g d h o h' o' Hc.
+  destruct (copy_row_inv _ _ _ _ _ _ _ Hc) as [P [Hget [Ho' [Hends Hh']]]].
+  destruct (p_lengths r g d h P) as [L1 [L2 [L3 [L4 L5]]]].
+  destruct (get_segs h _ _ _ _ _ _ _ L1 L2 L3 L4 L5) as [G0 _].
+  rewrite <- Hh' in G0.
+  assert (Groot : get h' (length h) = p_root r g d h P).
+  { specialize (G0 0 ltac:(lia)). rewrite Nat.add_0_r in G0. exact G0. }
+  subst o'. unfold obs. rewrite Hget, Groot. unfold p_root.
+  eexists. eexists. split; [reflexivity|]. split; [reflexivity|]. simpl. reflexivity.
+Qed.
+
+Lemma pick_scal_length : forall mask sc gs, length (pick_scal mask sc gs) = length sc.
+Proof.
+  intros mask sc. revert mask. induction sc as [|s sr IH]; intros mask gs; simpl; [reflexivity|].
+  destruct mask as [|b mr]; simpl; [reflexivity|]. rewrite IH. reflexivity.
+Qed.
+
+(* a scalar that is not named by the call is the source's *)
+Lemma pick_scal_keeps : forall mask sc gs i,
+  nth i mask false = false -> nth_error (pick_scal mask sc gs) i = nth_error sc i.
+Proof.
+  intros mask sc. revert mask. induction sc as [|s sr IH]; intros mask gs i Hm; simpl; [reflexivity|].
+  destruct mask as [|b mr]; [reflexivity|].
+  destruct i as [|i]; simpl in *.
+  - subst b. reflexivity.
+  - apply IH. exact Hm.
+Qed.
+
+(* a scalar that is named takes the value of the call *)
+Lemma pick_scal_takes : forall mask sc gs i,
+  nth i mask false = true -> i < length sc -> i < length gs ->
+  nth_error (pick_scal mask sc gs) i = nth_error gs i.
+Proof.
+  intros mask sc. revert mask. induction sc as [|s sr IH]; intros mask gs i Hm Hi Hg; simpl in *; [lia|].
+  destruct mask as [|b mr]; [destruct i; discriminate Hm|].
+  destruct i as [|i]; simpl in *.
+  - subst b. destruct gs as [|g gr]; simpl in *; [lia|reflexivity].
+  - destruct gs as [|g gr]; simpl in *; [lia|]. apply IH; auto; lia.
+Qed.
+
+(* dst(source, <keywords v>): the source is left as it was, the result is separated from it, every field the
+   call does not name is the source's (arrays / bonds / attributes by faithful_on under the masked need, the
+   scalars position by position), and the named scalars are the call's *)
+Theorem override_copy_sound : forall nd dd v r g d h o h' o',
+  heap_wf h -> row_ok nd r = true -> copy_route (RCtorWith dd v) r g d h o = Some (h', o') ->
+  separated h' o' o
+  /\ (forall l, In l (reach h' o') -> ~ In l (reach h' o))
+  /\ exists ob ob', obs h o = Some ob /\ obs h' o = Some ob /\ obs h' o' = Some ob'
+        /\ o_cls ob' = d /\ faithful_on nd ob ob'
+        /\ length (o_scal ob') = length (o_scal ob)
+        /\ (forall i, nth i (ovr_mask v) false = false -> nth_error (o_scal ob') i = nth_error (o_scal ob) i)
+        /\ (r_scal r = false -> forall i, nth i (ovr_mask v) false = true -> i < length (o_scal ob) -> i < length (g_scal g) ->
+               nth_error (o_scal ob') i = nth_error (g_scal g) i).
+Proof.
+  intros nd dd v r g d h o h' o' Hwf Hok Hc.
+  destruct (copy_route_sound nd _ r g d h o h' o' Hwf Hok Hc) as [Hsep [Hdis [ob [ob' [Ho [Hos [Ho' [Hcls Hf]]]]]]]].
+  split; [exact Hsep|]. split; [exact Hdis|]. exists ob, ob'.
+  do 5 (split; [assumption|]).
+  unfold copy_route in Hc.
+  destruct (get h o) as [| | | | | |cls sc al bl co ch we at_] eqn:Eo; try discriminate.
+  destruct (copy_scal _ _ _ _ _ _ _ Hc) as [ob1 [ob1' [Ho1 [Ho1' Hsc]]]].
+  rewrite Ho in Ho1. inversion Ho1; subst ob1. rewrite Ho' in Ho1'. inversion Ho1'; subst ob1'.
+  assert (Esc : o_scal ob = sc).
+  { unfold obs in Ho. rewrite Eo in Ho. inversion Ho. reflexivity. }
+  simpl in Hsc. rewrite <- Esc in Hsc.
+  destruct (r_scal r).
+  - rewrite Hsc. split; [reflexivity|]. split; [reflexivity|]. discriminate.
+  - rewrite Hsc. split; [apply pick_scal_length|]. split.
+    + intros i Hi. apply pick_scal_keeps. exact Hi.
+    + intros _ i Hi Hl Hg. apply pick_scal_takes; auto.
+Qed.
+
 (* ------------------------------------------------------------------ from the regenerated table to the theorems *)
 Lemma kls_eqb_eq : forall a b, kls_eqb a b = true -> a = b.
 Proof. intros a b H. destruct a, b; try reflexivity; discriminate H. Qed.
+
+Lemma ovr_eqb_eq : forall a b, ovr_eqb a b = true -> a = b.
+Proof.
+  intros [a1 a2 a3 a4 a5 a6] [b1 b2 b3 b4 b5 b6] H. unfold ovr_eqb in H. simpl in H.
+  apply andb_true_iff in H; destruct H as [H H6]. apply andb_true_iff in H; destruct H as [H H5].
+  apply andb_true_iff in H; destruct H as [H H4]. apply andb_true_iff in H; destruct H as [H H3].
+  apply andb_true_iff in H; destruct H as [H1 H2].
+  apply Bool.eqb_prop in H1, H2, H3, H4, H5, H6. subst. reflexivity.
+Qed.
 
 Lemma route_eqb_eq : forall a b, route_eqb a b = true -> a = b.
 Proof.
   intros a b H. destruct a, b; simpl in H; try discriminate; try reflexivity.
   - apply kls_eqb_eq in H. now subst.
+  - apply andb_true_iff in H. destruct H as [H1 H2]. apply kls_eqb_eq in H1. apply ovr_eqb_eq in H2. now subst.
   - apply andb_true_iff in H. destruct H as [H1 H2]. apply kls_eqb_eq in H1. apply Nat.eqb_eq in H2. now subst.
   - apply kls_eqb_eq in H. now subst.
 Qed.
@@ -801,6 +912,25 @@ Proof.
   unfold table_ok in Ht. apply andb_true_iff in Ht. destruct Ht as [_ Ht]. rewrite forallb_forall in Ht.
   specialize (Ht _ (lookup_row_In _ _ _ _ Hl)). unfold entry_ok in Ht. rewrite Hlone in Ht.
   eapply copy_row_sound; eauto.
+Qed.
+
+(* every tabulated copy-constructor route WITH keyword overrides *)
+Theorem table_override_sound : forall known t, table_ok known t = true ->
+  forall k dd v x, lookup_row t k (RCtorWith dd v) = Some x -> lone k = false ->
+  forall g h o h' o', heap_wf h -> copy_route (RCtorWith dd v) x g (kls_code dd) h o = Some (h', o') ->
+  separated h' o' o
+  /\ (forall l, In l (reach h' o') -> ~ In l (reach h' o))
+  /\ exists ob ob', obs h o = Some ob /\ obs h' o = Some ob /\ obs h' o' = Some ob'
+        /\ o_cls ob' = kls_code dd /\ faithful_on (need_known known k (RCtorWith dd v)) ob ob'
+        /\ length (o_scal ob') = length (o_scal ob)
+        /\ (forall i, nth i (ovr_mask v) false = false -> nth_error (o_scal ob') i = nth_error (o_scal ob) i)
+        /\ (r_scal x = false -> forall i, nth i (ovr_mask v) false = true -> i < length (o_scal ob) -> i < length (g_scal g) ->
+               nth_error (o_scal ob') i = nth_error (g_scal g) i).
+Proof.
+  intros known t Ht k dd v x Hl Hlone g h o h' o' Hwf Hc.
+  unfold table_ok in Ht. apply andb_true_iff in Ht. destruct Ht as [_ Ht]. rewrite forallb_forall in Ht.
+  specialize (Ht _ (lookup_row_In _ _ _ _ Hl)). unfold entry_ok in Ht. rewrite Hlone in Ht.
+  eapply override_copy_sound; eauto.
 Qed.
 
 Theorem table_routes_present : forall known t, table_ok known t = true ->
